@@ -226,6 +226,22 @@ CHECKS = {
         "Quick tier takes every third spelling / entry point.",
         "DESIGN.md 3/C03",
     ),
+    "C13": (
+        "exploration",
+        "exhaustive enumeration of null-pattern lattices against a brute-force oracle on the real code",
+        "For each parameter grid, variable count, internal-dimension setting, "
+        "coordinate type and criterion, every assignment of a kind (data, all "
+        "null, one variable null, partly null, +-inf) to every location is "
+        "built as a Dataset (full product while it fits the tier's cap, fewer "
+        "kinds or at most three deviating locations beyond) and "
+        "find_missing_cases / parse_into_cases are compared with a brute-force "
+        "numpy oracle (set, order, no duplicates, foreign coordinates, input "
+        "unchanged). The find -> harvest -> find loop runs on a real Harvester "
+        "from every 2x2 dataset.",
+        "Grid order is taken as row-major over the dataset's own dimension "
+        "order; string-valued variables are not generated.",
+        "DESIGN.md 3/C13",
+    ),
 }
 
 NOT_BUILT = "check not built yet in this session (design in DESIGN.md section 3)"
